@@ -1126,8 +1126,12 @@ def memoisation(ctx):
                         (c.methods.get('__eq__') or c.methods.get('__hash__')).site() if ('__eq__' in c.methods or '__hash__' in c.methods) else None,
                         'value-based equality lets two data sources with different contents share cache entries', key='C18.memo|identity|%s' % f.qn)
     ws = writers_of_attr(M, 'asset_bid_ask_frames')
-    ctx.require(len(ws) == 1 and ws[0].fn.qn == 'CSVDailyBarDataSource.__init__', 'C18.memo', 'the memoised lookups depend on frames written once, in the constructor',
-                ws[0].where if ws else None, [w.fn.qn for w in ws], key='C18.memo|frames')
+    if not ws:
+        # the quotes are not kept in a field of that name any more: what the lookups read instead, and who writes it, is judged by the state scan below
+        ctx.undecided('C18.memo', 'the memoised lookups depend on frames written once, in the constructor', None, 'no field asset_bid_ask_frames is written anywhere')
+    else:
+        ctx.require(len(ws) == 1 and ws[0].fn.qn == 'CSVDailyBarDataSource.__init__', 'C18.memo', 'the memoised lookups depend on frames written once, in the constructor',
+                    ws[0].where if ws else None, [w.fn.qn for w in ws], key='C18.memo|frames')
     state_scan(ctx, STATELESS_CLASSES)
     ctx.holds('C18.memo', 'statelessness scan of pricing/alpha/sizing components', None)
 
